@@ -43,10 +43,10 @@ def git(args, cwd, check=True):
 
 
 def plan(tier, seed):
-    n = 8 if tier == "quick" else 600
+    n = 6 if tier == "quick" else 600
     cases = [{"seed": common.subseed(seed, "c12", i), "steps": 8 if tier == "quick" else 16} for i in range(n)]
-    for i in range(6 if tier == "quick" else 300):
-        cases.append({"seed": common.subseed(seed, "c12d", i), "steps": 5 if tier == "quick" else 10, "directed": ["unused-package", "attic", "url-release"][i % 3], "_first": i < 12})
+    for i in range(8 if tier == "quick" else 300):
+        cases.append({"seed": common.subseed(seed, "c12d", i), "steps": 5 if tier == "quick" else 10, "directed": ["unused-package", "attic", "url-release", "branch-commit-move"][i % 4], "_first": i < 12})
     return cases
 
 
@@ -197,19 +197,19 @@ def new_git(u, rnd, d, repo=None):
     return s
 
 
-def set_rev(u, rnd, s):
+def set_rev(u, rnd, s, kind=None):
     r = u.repos[s["_repo"]]
     for k in ("branch", "tag", "commit"):
         s.pop(k, None)
-    kind = rnd.choice(["branch", "branch", "tag", "commit", "branch+commit", "branch+tag"])
+    kind = kind or rnd.choice(["branch", "branch", "tag", "commit", "branch+commit", "branch+tag"])
     if kind == "branch":
         s["branch"] = rnd.choice(r["branches"])
     elif kind == "tag":
         s["tag"] = rnd.choice(r["tags"])
     elif kind == "commit":
         b = rnd.choice(r["branches"]); s["commit"] = rnd.choice(r["commits"][b])
-    elif kind == "branch+commit":
-        b = rnd.choice(r["branches"]); s["branch"] = b; s["commit"] = rnd.choice(r["commits"][b])
+    elif kind in ("branch+commit", "branch+commit:master"):
+        b = rnd.choice(r["branches"]) if kind == "branch+commit" else "master"; s["branch"] = b; s["commit"] = rnd.choice(r["commits"][b])
     else:
         s["branch"] = "master"; s["tag"] = rnd.choice(r["tags"])
     return kind
@@ -254,8 +254,11 @@ def run_case(case):
         for i in range(rnd.choice([2, 2, 3])):
             p = "p%d" % i
             st["pkgs"][p] = []; st["deps"].append(p)
-            for j in range(rnd.choice([1, 1, 2, 3]) if not (directed and i == 0) else rnd.choice([2, 3])):
-                if directed and i == 0:        # several git directories side by side (or nested) in one source workspace
+            for j in range(rnd.choice([1, 1, 2, 3]) if not (directed and i == 0) else (1 if directed == "branch-commit-move" else rnd.choice([2, 3]))):
+                if directed == "branch-commit-move" and i == 0:
+                    st["commitOnBranch"] = True
+                    s_ = new_git(u, rnd, newdir(st, p, False), rnd.choice(["g0", "g1"])); set_rev(u, rnd, s_, rnd.choice(["branch+commit:master", "branch+tag"])); st["pkgs"][p].append(s_)
+                elif directed and i == 0:        # several git directories side by side (or nested) in one source workspace
                     st["pkgs"][p].append(new_git(u, rnd, newdir(st, p, j > 0)))
                 else:
                     st["pkgs"][p].append(new_scm(u, rnd, newdir(st, p)) if (i, j) != (0, 0) else new_git(u, rnd, newdir(st, p, False), "g0"))
@@ -420,7 +423,7 @@ def run_case(case):
                 if not any(x["dir"].startswith(old["dir"] + "/") for x in scms):
                     scms[i] = new_scm(u, rnd, old["dir"])
             elif k == "git-rev":
-                s = rnd.choice([s for s in scms if s["scm"] == "git"]); k = "git-rev:" + set_rev(u, rnd, s)
+                s = rnd.choice([s for s in scms if s["scm"] == "git"]); k = "git-rev:" + set_rev(u, rnd, s, force[2] if force is not None and len(force) > 2 else None)
             elif k == "git-url":
                 s = rnd.choice([s for s in scms if s["scm"] == "git"])
                 s["_repo"] = rnd.choice([r for r in u.repos if r != s["_repo"]]); s["url"] = u.repos[s["_repo"]]["bare"]
@@ -539,7 +542,11 @@ def run_case(case):
         KNOWN_CONTINUE = ("ignored-untracked-file-deleted-by-clean",)      # the history goes on after this one (the artefact is retired)
         fatal = lambda: any(v["mechanism"] not in KNOWN_CONTINUE for v in viol)
         forced = []
-        if directed == "url-release":
+        if directed == "branch-commit-move":
+            # gitCommitOnBranch: the user commits on the configured branch, then the recipe names another commit / tag of that branch (twice)
+            mv = lambda: ("recipe", ("git-rev", "p0", rnd.choice(["branch+commit:master", "branch+tag"])), ["dev"])
+            forced = [("user", (rnd.choice(["commit", "commit", "dirty", "untracked"]), "p0"), [] if rnd.random() < 0.6 else ["dev"]), mv(), mv(), ("upstream", None, ["dev"]), mv()]
+        elif directed == "url-release":
             # a url source without digest moves to another release (same file name), twice, with builds in between
             forced = [("recipe", ("url-url", "p0"), ["dev"]), ("upstream", None, ["dev"]), ("recipe", ("url-url", "p0"), ["dev"])]
         elif directed == "unused-package":
